@@ -32,7 +32,6 @@ package openapi3gen
 //@   option safety-tags none
 //@   tag C15
 
-
 // ---- C18, the kind table: the schema generated for a Go scalar kind admits every JSON number the
 // standard encoder can produce for a value of that kind - it says "integer" (or "number"), and any
 // bound it states contains the whole range of the kind. (Soundness, not exactness: a missing bound
